@@ -277,9 +277,10 @@ theorem suffix_joinWith_of_getLastD_nil (sep : List α) (parts : List (List α))
   rw [← List.append_assoc]
   exact List.suffix_append _ _
 
-/-- Statement 7. -/
-theorem Spec.apply_id (text sep : List α) (nt : Bool) (h : sep ≠ [])
-    (hlast : sep.isSuffixOf text = true → (splitOn text sep).getLast? = some []) :
+/-- Statement 7.  With `Spec.apply`'s trailing rule "the last piece of the split is empty" the
+identity callback reproduces the text for EVERY non-empty separator (no side condition on the
+separator's self-overlap is needed any more). -/
+theorem Spec.apply_id (text sep : List α) (nt : Bool) (h : sep ≠ []) :
     Spec.apply text sep nt (fun _ l => [l]) = text := by
   have hne := splitOn_ne_nil' text sep h
   have hj := joinWith_splitOn text sep h
@@ -291,27 +292,13 @@ theorem Spec.apply_id (text sep : List α) (nt : Bool) (h : sep ≠ [])
   | true => simpa using hj
   | false =>
     simp only [Bool.not_false, Bool.true_and, List.isEmpty_iff]
-    by_cases hs : sep.isSuffixOf text = true
-    · have hl : parts.getLastD [] = [] := by
-        rw [List.getLastD_eq_getLast?, hlast hs]; rfl
-      rw [if_pos hl, if_pos hs]
+    by_cases hl : parts.getLastD [] = []
+    · rw [if_pos hl, if_pos hl]
       rw [hl] at hd
       rw [← hd]
       exact hj
-    · rw [if_neg hs]
-      by_cases hl : parts.getLastD [] = []
-      · rw [if_pos hl]
-        by_cases h2 : parts.dropLast = []
-        · rw [h2, hl, List.nil_append] at hd
-          rw [hd] at hj
-          rw [h2, ← hj]
-          rfl
-        · exfalso
-          apply hs
-          rw [List.isSuffixOf_iff_suffix, ← hj]
-          exact suffix_joinWith_of_getLastD_nil sep parts hl h2
-      · rw [if_neg hl]
-        exact hj
+    · rw [if_neg hl, if_neg hl]
+      exact hj
 
 /-! ### the final occurrence is found for an unbordered separator -/
 
@@ -432,11 +419,102 @@ instance (sep : List α) : Decidable (Unbordered sep) :=
   decidable_of_iff (∀ k, k < sep.length → 0 < k → sep.take k ≠ sep.drop (sep.length - k))
     ⟨fun h k h0 h1 => h k h1 h0, fun h k h1 h0 => h k h0 h1⟩
 
-/-- Statement 7 with the side condition discharged for separators without a proper border
-(in particular every one-atom separator such as "\n", and "\r\n"). -/
+/-- Statement 7 for separators without a proper border: now a special case of `Spec.apply_id`
+(kept for compatibility; the `Unbordered` hypothesis is no longer used). -/
 theorem Spec.apply_id_of_unbordered (text sep : List α) (nt : Bool) (h : sep ≠ [])
-    (hu : Unbordered sep) : Spec.apply text sep nt (fun _ l => [l]) = text :=
-  Spec.apply_id text sep nt h (splitOn_last_of_suffix text sep h hu)
+    (_hu : Unbordered sep) : Spec.apply text sep nt (fun _ l => [l]) = text :=
+  Spec.apply_id text sep nt h
+
+/-! ### the trailing rule of `Apply`: `bareLines` dropped a final empty piece -/
+
+/-- `bareLines` is shorter than the split exactly when it dropped a final empty piece -/
+theorem Spec.bareLines_length_lt_iff (text sep : List α) (nt : Bool) :
+    (Spec.bareLines text sep nt).length < (splitOn text sep).length ↔
+      (nt = false ∧ (splitOn text sep).getLastD [] = [] ∧ splitOn text sep ≠ []) := by
+  unfold Spec.bareLines
+  generalize splitOn text sep = parts
+  cases nt with
+  | true => simp
+  | false =>
+    simp only [Bool.not_false, Bool.true_and, List.isEmpty_iff, true_and]
+    by_cases hl : parts.getLastD [] = []
+    · rw [if_pos hl, List.length_dropLast]
+      constructor
+      · intro h
+        refine ⟨hl, ?_⟩
+        intro h0; rw [h0] at h; simp at h
+      · intro h
+        have := List.length_pos_iff.mpr h.2
+        omega
+    · rw [if_neg hl]
+      constructor
+      · intro h; omega
+      · intro h; exact absurd h.1 hl
+
+theorem Spec.bareLines_length_lt_iff' (text sep : List α) (nt : Bool) (h : sep ≠ []) :
+    (Spec.bareLines text sep nt).length < (splitOn text sep).length ↔
+      (nt = false ∧ (splitOn text sep).getLastD [] = []) := by
+  rw [Spec.bareLines_length_lt_iff]
+  have := splitOn_ne_nil' text sep h
+  constructor
+  · intro h; exact ⟨h.1, h.2.1⟩
+  · intro h; exact ⟨h.1, h.2, this⟩
+
+/-- the lines a callback sees plus the trailing empty piece that the default policy hides are
+exactly the pieces of the split (no hypothesis on the separator) -/
+theorem Spec.bareLines_append_trailing (t sep : List α) (nt : Bool) :
+    Spec.bareLines t sep nt ++
+      (if !nt ∧ (Spec.bareLines t sep nt).length < (splitOn t sep).length then [[]] else []) =
+      splitOn t sep := by
+  by_cases hc : (Spec.bareLines t sep nt).length < (splitOn t sep).length
+  · have hc' := (Spec.bareLines_length_lt_iff t sep nt).1 hc
+    obtain ⟨hnt, hl, hne⟩ := hc'
+    subst hnt
+    rw [if_pos ⟨rfl, hc⟩]
+    unfold Spec.bareLines
+    simp only [Bool.not_false, Bool.true_and, List.isEmpty_iff, if_pos hl]
+    have := eq_dropLast_append_getLastD (splitOn t sep) [] hne
+    rw [hl] at this
+    exact this.symm
+  · rw [if_neg (fun h => hc h.2), List.append_nil]
+    have hc' := fun h => hc ((Spec.bareLines_length_lt_iff t sep nt).2 h)
+    unfold Spec.bareLines
+    simp only
+    split
+    · rename_i h
+      simp only [Bool.and_eq_true, Bool.not_eq_true', List.isEmpty_iff] at h
+      by_cases hne : splitOn t sep = []
+      · rw [hne]; rfl
+      · exact absurd ⟨h.1, h.2, hne⟩ hc'
+    · rfl
+/-! ### "the text ends with the separator" versus "the last piece of the split is empty" -/
+
+/-- if the last piece is empty (and the text is not), the text ends with the separator: any
+non-empty separator -/
+theorem isSuffixOf_of_getLastD_nil (text sep : List α) (h : sep ≠ []) (ht : text ≠ [])
+    (hl : (splitOn text sep).getLastD [] = []) : sep.isSuffixOf text = true := by
+  have hj := joinWith_splitOn text sep h
+  have hne := splitOn_ne_nil' text sep h
+  rw [List.isSuffixOf_iff_suffix]
+  by_cases h2 : (splitOn text sep).dropLast = []
+  · exfalso
+    have hd := eq_dropLast_append_getLastD (splitOn text sep) [] hne
+    rw [h2, hl, List.nil_append] at hd
+    rw [hd] at hj
+    exact ht hj.symm
+  · have := suffix_joinWith_of_getLastD_nil sep (splitOn text sep) hl h2
+    rwa [hj] at this
+
+/-- for a separator without a proper border the old and the new trailing condition coincide (on a
+non-empty text; the empty text has the single empty piece and does not end with the separator) -/
+theorem isSuffixOf_iff_getLastD_nil (text sep : List α) (h : sep ≠ []) (hu : Unbordered sep)
+    (ht : text ≠ []) :
+    sep.isSuffixOf text = true ↔ (splitOn text sep).getLastD [] = [] := by
+  constructor
+  · intro hs
+    rw [List.getLastD_eq_getLast?, splitOn_last_of_suffix text sep h hu hs]
+    rfl
+  · exact isSuffixOf_of_getLastD_nil text sep h ht
 
 /-! ### non-vacuity on concrete lists -/
 
@@ -456,12 +534,13 @@ example : Unbordered [9, 8] := by decide
 example : ¬ Unbordered [7, 7] := by decide
 example : ¬ Unbordered [1, 2, 1] := by decide
 
-/-- The side condition `hlast` of `Spec.apply_id` cannot be dropped: with the bordered separator
-`[7,7]` the leftmost scan of `[7,7,7]` misses the final occurrence, and the identity callback does
-not give the text back. -/
+/-- The former counterexample (trailing rule "the text ends with the separator"): with the bordered
+separator `[7,7]` the leftmost scan of `[7,7,7]` misses the final occurrence, so the last line `[7]`
+is unterminated; with the rule "the last piece is empty" the identity callback now gives the text
+back. -/
 example : ([7, 7] : List Nat).isSuffixOf [7, 7, 7] = true ∧
     (splitOn [7, 7, 7] [7, 7]).getLast? = some [7] ∧
-    Spec.apply [7, 7, 7] [7, 7] false (fun _ l => [l]) = [7, 7, 7, 7, 7] := by decide
+    Spec.apply [7, 7, 7] [7, 7] false (fun _ l => [l]) = [7, 7, 7] := by decide
 
 example : joinWith ([] : List Nat) (splitOn [1, 2, 3] []) = [1, 2, 3] := by decide
 
